@@ -203,6 +203,11 @@ def scope_lookup_shape(ctx, rule, fn, inner, crate='pavexc'):
         # the walk may be written as an iterator of scopes (`from_fn` over a FIFO) consumed by `find_map`
         if _scope_lookup_iterator_form(ctx, rule, fn, inner, b, crate):
             return
+    from ..inline import inlined
+    # .. or drive a cursor over the scope graph (`order.advance(graph)`): the cursor's steps are part of the walk
+    b0_ = b
+    b = inlined(ctx.fb, b, keep={inner}, also=lambda cb: '::scope_graph::' in cb.nid and '::ScopeId::' not in cb.nid and len(cb.blocks) <= 60,
+                only=lambda cb: ('::scope_graph::' in cb.nid and '::ScopeId::' not in cb.nid) or cb.file == b0_.file)
     defs = Defs(b)
     look = [(bb, t) for bb, t in b.calls() if callee(t) == inner]
     ext = [(bb, t) for bb, t in b.calls() if (callee(t) or '').endswith('::extend') and 'VecDeque' in t['aty'][0]]
@@ -215,6 +220,21 @@ def scope_lookup_shape(ctx, rule, fn, inner, crate='pavexc'):
         from_parents = (SG + 'direct_parent_ids') in {c for c, _, _ in slice_calls(sl)}
     maps = [bb for bb, t in b.calls() if (callee(t) or '').split('::')[-1] in ('get', 'get_mut') and any(k in t['aty'][0] for k in ('HashMap', 'IndexMap', 'BTreeMap'))]
     order = bool(maps) and bool(ext) and all(b.dominates(maps[0], e) for e, _ in ext)
+    if not order and maps and ext:
+        # the parents may be enqueued as soon as a scope is popped (a cursor does that): what matters is that the scope looked up is the one
+        # that was popped, and that the queue started with the requesting scope
+        pops0 = [t for bb, t in b.calls() if 'VecDeque' in (t['aty'][0] if t['aty'] else '') and (callee(t) or '').endswith('pop_front')]
+        popped = forward_derived(b, {pops0[0]['dest']['l']}, through_calls=True) if pops0 else set()
+        key_ok = all(op_place(b.term(m)['args'][1]) is not None and op_place(b.term(m)['args'][1])['l'] in popped for m in maps)
+        SCOPE = A + 'user_components::scope_graph::ScopeId'
+        params = {i for i in range(1, b.raw['argc'] + 1) if b.locals[i] == SCOPE}
+        starts = []
+        for bb, t in b.calls():
+            if 'VecDeque' in (t['aty'][0] if t['aty'] else '') and (callee(t) or '').split('::')[-1] == 'push_back' and not (bb in b.reachable(b.succ(bb))):
+                q = op_place(t['args'][1])
+                _, locs = backward_slice(b, q['l'], defs) if q else ([], set())
+                starts.append(bool(locs & params))
+        order = key_ok and bool(starts) and all(starts)
     # a miss continues: the only returns inside the loop are under the Some edge of the inner lookup's result
     miss_ok = False
     if look and ext:
@@ -227,12 +247,43 @@ def scope_lookup_shape(ctx, rule, fn, inner, crate='pavexc'):
                 e = switch_edges(w)
                 some_targets.append(e.get('Some'))
                 none_targets.append(e.get('None', w['else']))
+        # `if x.is_some() { return x }` is the same test written with a bool
+        for cbb, ct in b.calls():
+            if callee(ct) in ('core::option::Option::is_some', 'core::option::Option::is_none') and op_place(ct['args'][0]) is not None \
+                    and op_place(ct['args'][0])['l'] in der and not ct['dest'].get('p'):
+                bder = forward_derived(b, {ct['dest']['l']})
+                for sb in b.live_blocks():
+                    w = b.term(sb)
+                    if w and w['k'] == 'switch' and 'enum' not in w and op_place(w['d']) is not None and op_place(w['d'])['l'] in bder and len(w['ts']) == 1:
+                        t_edge, f_edge = w['else'], w['ts'][0][1]
+                        if callee(ct).endswith('is_none'):
+                            t_edge, f_edge = f_edge, t_edge
+                        some_targets.append(t_edge)
+                        none_targets.append(f_edge)
         rets = set(b.return_blocks())
         eb = ext[0][0]
-        # from the None edge (and from "no table for this scope") the extension is reached before any return
-        miss_ok = bool(none_targets) and all(not (b.reachable(n_, avoid=[eb]) & rets) for n_ in none_targets if n_ is not None)
+        popb0 = [bb for bb, t in b.calls() if 'VecDeque' in (t['aty'][0] if t['aty'] else '') and (callee(t) or '').endswith('pop_front')]
+        # a miss never ends the walk by itself: from the None edge (and from "no table for this scope") every way to a return goes back to the
+        # queue first (through the extension, or — when the parents were enqueued as the scope was popped — through the next pop)
+        back = [eb] + popb0
+        miss_ok = bool(none_targets) and all(not (b.reachable(n_, avoid=back) & rets) for n_ in none_targets if n_ is not None)
         # and the inner lookup's value is never returned without that Some test
-        miss_ok = miss_ok and not (b.reachable(b.succ(lb), avoid=[s for s in some_targets if s is not None] + [eb]) & rets)
+        miss_ok = miss_ok and not (b.reachable(b.succ(lb), avoid=[s for s in some_targets if s is not None] + back) & rets)
+        # and every scope that is popped and not a hit has its parents enqueued before the next one is popped
+        if popb0:
+            pder = forward_derived(b, {b.term(popb0[0])['dest']['l']}, through_calls=True)
+            succ_edges = []
+            for sb in b.live_blocks():
+                w = b.term(sb)
+                if w and w['k'] == 'switch' and strip_generics(w.get('enum', '')) in ('core::option::Option', 'core::ops::control_flow::ControlFlow') \
+                        and w['src']['l'] in pder and b.dominates(popb0[0], sb):
+                    e = switch_edges(w)
+                    succ_edges.append((sb, e.get('Some', e.get('Continue'))))
+            # the test closest to the pop decides whether a scope was obtained
+            succ_edges = [x for x in succ_edges if x[1] is not None and not any(b.dominates(y[0], x[0]) and y[0] != x[0] for y in succ_edges)]
+            miss_ok = miss_ok and bool(succ_edges) and all(popb0[0] not in b.reachable(tg, avoid=[eb]) for _, tg in succ_edges)
+        else:
+            miss_ok = False
     # nothing is returned before the walk starts: every Some(..) result is produced inside the loop
     popb = [bb for bb, t in b.calls() if 'VecDeque' in (t['aty'][0] if t['aty'] else '') and (callee(t) or '').endswith('pop_front')]
     somes = [bb for bb, j, st in b.all_assigns() if st['lhs'] == {'l': 0} and st['rv']['k'] == 'agg' and st['rv'].get('var') == 'Some']
